@@ -1,29 +1,46 @@
 /-
-  C01 — Wallet ledger equals what the best chain pays to its addresses.   PROPERTY THEOREMS.
-  Model: MW.Model.Ledger (follower + stores as written);  Spec: MW.Spec.Chain (fold over the chain).
+  C01 — Wallet ledger equals what the best chain pays to its addresses.   PROPERTY THEOREMS:
+  the refinement model ⊨ spec for all histories, and the maturity arithmetic.
+
+  Reading guide.  `bookOf p own chain` (MW.Spec.Books) is the bookkeeping a chain implies, one plain fold;
+  its ledger component IS the spec ledger (`books_ledger`), and `books_*` say in terms of the chain what
+  each table holds.  `Inv c s chain` (MW.Lemmas.Ledger.Inv): store `s` holds exactly these books
+  (unspent index, credits, debits, deposit records, tx records, block records), every ready wallet's
+  balance is the total of its ledger entries, the synced-to table is the chain's height ↦ id map.
+  Hypotheses are explicit decidable predicates (MW.Lemmas.LedgerValid):
+    ChainValid own chain   no duplicate transaction ids; every non-coinbase input spends an existing,
+                           not yet spent output of the chain; no transaction with BOTH an owned binding
+                           input and an owned binding output
+    AllReady own ready     every owner of an address is a ready wallet (importing/removed wallets: C07, C08)
+    GoodChain / HeightsOK  block heights are positions, blocks are hash-linked
+    RunHyp(I)              every node chain of the history is such a chain from one genesis, made of blocks of
+                           the block files; an address receives payments only after the wallet issued it (`paid`)
 -/
-import MW.Model.Ledger
-import MW.Spec.Chain
+import MW.Lemmas.LedgerMain
+import MW.Lemmas.LedgerHistoryEx
+import MW.Lemmas.LedgerIssueEx
+import MW.Lemmas.LedgerAbs2
+import MW.Lemmas.LedgerObsEx
+import MW.Lemmas.LedgerD2Ex
 namespace MW.Props.C01
-open MW MW.Model.Ledger MW.Spec.Chain
+open MW MW.Model.Ledger MW.Spec.Chain MW.Spec.Books MW.Lemmas.Ledger
 
-/-- `confs` in the range the follower guarantees (coin height ≤ synced height): no wrap-around. -/
-theorem confs_of_le (sync height : Nat) (h : height ≤ sync) (hs : sync < 2^63) :
-    confs sync height = sync - height + 1 := by
-  unfold confs u64
-  have h1 : ((sync : Int) - (height : Int) + 1) = ((sync - height + 1 : Nat) : Int) := by omega
-  rw [h1]
-  have h2 : ((sync - height + 1 : Nat) : Int) % (2^64 : Int) = ((sync - height + 1 : Nat) : Int) := by
-    apply Int.emod_eq_of_lt <;> omega
-  rw [h2]; simp
-
-/-- maturity_iff (coinbase): the wallet's confirmation arithmetic is the consensus coinbase rule -/
+/-- maturity_iff (coinbase, plain script): the wallet's confirmation arithmetic is the consensus coinbase rule
+    (a coinbase output with a standard / old-style binding script has no sequence lock) -/
 theorem maturity_iff_coinbase (p : Params) (tip : Nat) (c : SCoin) (hc : c.cb = true)
-    (h : c.height ≤ tip) (ht : tip < 2^63) :
+    (hk : c.cls = .std ∨ ∃ t, c.cls = .bindOld t) (h : c.height ≤ tip) (ht : tip < 2^63) :
     (confs tip c.height ≥ p.cbMaturity) ↔ spendableAt p tip c = true := by
   rw [confs_of_le tip c.height h ht]
-  unfold spendableAt
-  simp [hc]
+  rcases hk with hk | ⟨t, hk⟩ <;> simp [spendableAt, seqOK, hc, hk] <;> omega
+
+/-- maturity_iff (coinbase with a staking script): BOTH the coinbase maturity and the sequence lock of the
+    script: the wallet tests confs ≥ max cbMaturity (frozen+1) -/
+theorem maturity_iff_coinbase_staking (p : Params) (tip : Nat) (c : SCoin) (f : Nat) (hc : c.cb = true)
+    (hk : c.cls = .stk f) (h : c.height ≤ tip) (ht : tip < 2^63) :
+    (confs tip c.height ≥ max p.cbMaturity (f + 1)) ↔ spendableAt p tip c = true := by
+  rw [confs_of_le tip c.height h ht]
+  unfold spendableAt seqOK
+  simp only [hc, hk, if_true, Bool.and_eq_true, decide_eq_true_eq]
   omega
 
 /-- maturity_iff (staking): confs ≥ frozen+1 is the sequence-lock rule origin + (frozen+1) − 1 < tip+1 -/
@@ -31,7 +48,7 @@ theorem maturity_iff_staking (p : Params) (tip : Nat) (c : SCoin) (f : Nat) (hc 
     (hk : c.cls = .stk f) (h : c.height ≤ tip) (ht : tip < 2^63) :
     (confs tip c.height ≥ (Cls.stk f).maturity) ↔ spendableAt p tip c = true := by
   rw [confs_of_le tip c.height h ht]
-  unfold spendableAt Cls.maturity
+  unfold spendableAt seqOK Cls.maturity
   simp [hc, hk]
   omega
 
@@ -40,7 +57,7 @@ theorem maturity_iff_plain (p : Params) (tip : Nat) (c : SCoin) (hc : c.cb = fal
     (hk : c.cls = .std ∨ ∃ t, c.cls = .bindOld t) (h : c.height ≤ tip) (ht : tip < 2^63) :
     (confs tip c.height ≥ c.cls.maturity) ↔ spendableAt p tip c = true := by
   rw [confs_of_le tip c.height h ht]
-  rcases hk with hk | ⟨t, hk⟩ <;> simp [spendableAt, Cls.maturity, hc, hk]
+  rcases hk with hk | ⟨t, hk⟩ <;> simp [spendableAt, seqOK, Cls.maturity, hc, hk]
 
 /-- the spec ledger is compositional: processing one more block is `applyBlock` -/
 theorem ledgerOf_snoc (own : Own) (c : List Block) (b : Block) :
@@ -52,5 +69,207 @@ theorem ledgerOf_snoc (own : Own) (c : List Block) (b : Block) :
 theorem confs_wraps : confs 1 3 = 2^64 - 1 := by decide
 
 example : confs 10 7 = 4 := by decide
+
+
+-- ------------------------------------------------------------------ the books are the spec ledger
+
+/-- the ledger component of the books of a chain IS the spec ledger `ledgerOf` (unconditionally) -/
+theorem books_ledger (p : Params) (own : Own) (chain : List Block) :
+    (bookOf p own chain).L.map UCoin.toSCoin = ledgerOf own chain := bookOf_L p own chain
+
+/-- credit table = every owned output of the chain, with spent flag and spender as the chain has them -/
+theorem books_credits {p : Params} {own : Own} {chain : List Block} (h : ChainValid own chain) :
+    CredInv p own (occs chain) (bookOf p own chain) := credInv_bookOf h
+
+/-- one debit per owned spent input, none else -/
+theorem books_debits {p : Params} {own : Own} {chain : List Block} (h : ChainValid own chain) :
+    DebitInv own (occs chain) (bookOf p own chain) := debitInv_bookOf h
+
+/-- block records list the relevant transactions of each height in block order -/
+theorem books_blocks (p : Params) (own : Own) (pre post : List Block) (b : Block)
+    (hH : HeightsOK (pre ++ b :: post)) :
+    (bookOf p own (pre ++ b :: post)).blocks b.height =
+      match touchIds p own (bookOf p own pre) (occsOfBlock b) with
+      | [] => none
+      | ids => some (b.id, ids) := bookOf_blocks_at p own pre post b hH
+
+/-- abstraction function: the unspent index (⋈ tx records ⋈ block files) denotes the spec ledger -/
+theorem abs_ledger {c : Ctx} {s : Store} {chain : List Block} (hI : Inv c s chain) (hWF : KeysNodup s.unspent)
+    (hV : ChainValid c.own chain) (hH : HeightsOK chain)
+    (hK : ∀ x ∈ chain, AMap.get c.node.known x.id = some x) :
+    (Lemmas.Ledger.abs c s).Perm (ledgerOf c.own chain) := abs_perm hI hWF hV hH hK
+
+-- ------------------------------------------------------------------ goal 1: connect_sound, build_sound
+
+/-- connect_sound: under the invariant, filterBlock on the next block of the node's chain succeeds and
+    yields the invariant for the longer chain -/
+theorem connect_sound {c : Ctx} {s : Store} {chain rest : List Block} {b : Block}
+    (hI : Inv c s chain) (hnode : c.node.chain = chain ++ b :: rest) (hvalid : ChainValid c.own c.node.chain)
+    (hheight : b.height = chain.length)
+    (hAR : AllReady c.own (readyWallets s c.wallets)) (hne : (readyWallets s c.wallets).isEmpty = false) :
+    ∃ s' conf, filterBlock c s (readyWallets s c.wallets) b = .ok (s', conf) ∧ Inv c s' (chain ++ [b]) ∧
+      s'.status = s.status := Lemmas.Ledger.connect_sound hI hnode hvalid hheight hAR hne
+
+/-- the same including the address records (first-use heights; `a0` = the records of the addresses issued so far) -/
+theorem connect_sound_addrs {c : Ctx} {s : Store} {a0 : Wid × Bool × Addr → Option Nat}
+    {chain rest : List Block} {b : Block}
+    (hI : InvFull c s a0 chain) (hnode : c.node.chain = chain ++ b :: rest) (hvalid : ChainValid c.own c.node.chain)
+    (hheight : b.height = chain.length)
+    (hAR : AllReady c.own (readyWallets s c.wallets)) (hne : (readyWallets s c.wallets).isEmpty = false) :
+    ∃ s' conf, filterBlock c s (readyWallets s c.wallets) b = .ok (s', conf) ∧ InvFull c s' a0 (chain ++ [b]) ∧
+      s'.status = s.status := connect_sound_full hI hnode hvalid hheight hAR hne
+
+/-- build_sound: processing the blocks of any valid chain one by one reaches the invariant -/
+theorem build_sound {c : Ctx} {s : Store} {chain tc : List Block}
+    (hI : Inv c s chain) (hnode : c.node.chain = chain ++ tc) (hvalid : ChainValid c.own c.node.chain)
+    (hH : HeightsOK c.node.chain)
+    (hAR : AllReady c.own (readyWallets s c.wallets)) (hne : (readyWallets s c.wallets).isEmpty = false) :
+    ∃ s' added, connectAll c (readyWallets s c.wallets) tc s [] = .ok (s', added) ∧ Inv c s' c.node.chain :=
+  Lemmas.Ledger.build_sound hI hnode hvalid hH hAR hne
+
+/-- base case: a fresh wallet database satisfies the invariant for the genesis block -/
+theorem fresh_inv {c : Ctx} {s : Store} {G : Block} (h : FreshStore c s G) : Inv c s [G] := inv_fresh h
+
+-- ------------------------------------------------------------------ goal 2: rollback
+
+/-- rollback_connect: connecting a block and disconnecting it again restores every MINED bucket
+    extensionally (credits, unspent, debits, deposit records, tx records, block records, synced-to table);
+    the pending buckets legitimately change -/
+theorem rollback_connect {c : Ctx} {s s1 s2 : Store} {chain rest : List Block} {b : Block} {conf : List TxId}
+    (hI : Inv c s chain) (hne : chain ≠ [])
+    (hnode : c.node.chain = chain ++ b :: rest) (hvalid : ChainValid c.own c.node.chain)
+    (hH : HeightsOK c.node.chain) (hknown : AMap.get c.node.known b.id = some b)
+    (hAR : AllReady c.own (readyWallets s c.wallets)) (hre : (readyWallets s c.wallets).isEmpty = false)
+    (h1 : filterBlock c s (readyWallets s c.wallets) b = .ok (s1, conf))
+    (h2 : disconnectBlock c s1 b.height = .ok s2) :
+    AMap.Equiv s2.credits s.credits ∧ AMap.Equiv s2.unspent s.unspent ∧ AMap.Equiv s2.debits s.debits ∧
+    AMap.Equiv s2.game s.game ∧ AMap.Equiv s2.txrecs s.txrecs ∧ AMap.Equiv s2.blocks s.blocks ∧
+    AMap.Equiv s2.sync s.sync ∧ s2.syncedTo = s.syncedTo :=
+  inv_functional (rollback_connect_inv hI hne hnode hvalid hH hknown hAR hre h1 h2).2 hI
+
+/-- disconnecting the tip block yields the invariant for the chain without it -/
+theorem disconnect_sound {c : Ctx} : DisconnectSpec c := disconnectSpec_of
+
+/-- rollback_build: rolling the wallet back by any number of blocks (the follower's disconnect loop; the
+    fuel `curH + 1` the model passes suffices) yields the invariant for the shorter chain -/
+theorem rollback_build {c : Ctx} {S : List Block} (H : ReorgHyp c S) {s : Store} {curH nbH fuel : Nat}
+    (rolled : List Nat) (hI : Inv c s S) (hlen : S.length = curH + 1) (hle : nbH ≤ curH)
+    (hfuel : curH + 1 ≤ fuel) (hAR : AllReady c.own (readyWallets s c.wallets)) :
+    ∃ s', disconnectDown c nbH fuel s curH rolled = .ok (s', nbH, rolled ++ descList curH nbH) ∧
+      Inv c s' (S.take (nbH + 1)) ∧ ∀ ws, readyWallets s' ws = readyWallets s ws :=
+  disconnectDown_spec H rolled hI hlen hle hfuel hAR
+
+-- ------------------------------------------------------------------ goal 3: reorg
+
+/-- reorg_reaches: for ANY stored chain S and node chain N sharing the genesis (S = c₁ ++ old,
+    N.take (b.height+1) = c₁ ++ new, either part possibly empty), reorg on a block of the node's chain
+    succeeds – none of its error exits and none of the three fuel bounds is reached – and ends in the
+    invariant for the node's chain up to that block; exactly the heights above the fork are rolled back
+    (descending) and exactly the new branch is connected. -/
+theorem reorg_reaches {c : Ctx} {S : List Block} (H : ReorgHyp c S) {s : Store} {b : Block}
+    (hI : Inv c s S) (hb : c.node.chain[b.height]? = some b)
+    (hAR : AllReady c.own (readyWallets s c.wallets)) (hne : (readyWallets s c.wallets).isEmpty = false) :
+    ∃ s' rolled added, reorg c s (tipMeta S) b = .ok (s', rolled, added) ∧
+      Inv c s' (c.node.chain.take (b.height + 1)) ∧ (∀ ws, readyWallets s' ws = readyWallets s ws) ∧
+      ∃ f, f ≤ b.height ∧ f < S.length ∧ S.take (f + 1) = c.node.chain.take (f + 1) ∧
+        (∀ j, f < j → j ≤ b.height → j < S.length → S.take (j + 1) ≠ c.node.chain.take (j + 1)) ∧
+        rolled = descList (S.length - 1) f ∧
+        added.map (·.1) = (List.range' (f + 1) (b.height - f)) :=
+  Lemmas.Ledger.reorg_reaches H hI hb hAR hne
+
+/-- one handler step, for an ARBITRARY (possibly stale) notification: it either fails and changes nothing,
+    or succeeds and the wallet holds the books of the node's chain up to the block, resp. – a stale block
+    still on the wallet's chain – of its own chain up to the block -/
+theorem handler_step {c : Ctx} {S : List Block} (H : ReorgHyp c S) {s : Store} {v : Vol} {b : Block}
+    (hinj : IdInj (b :: (S ++ c.node.chain))) (hI : Inv c s S) (hv : v.best = tipMeta S)
+    (hgen : b.height = 0 → b.prev ≠ (tipMeta S).hash)
+    (hAR : AllReady c.own (readyWallets s c.wallets)) (hne : (readyWallets s c.wallets).isEmpty = false) :
+    ∃ s' v' ok, processBlock c s v b = (s', v', ok) ∧
+      ((ok = false ∧ s' = s ∧ v' = v) ∨
+       (ok = true ∧ v'.best = ⟨b.height, b.id⟩ ∧ (∀ ws, readyWallets s' ws = readyWallets s ws) ∧
+        ((c.node.chain[b.height]? = some b ∧ Inv c s' (c.node.chain.take (b.height + 1))) ∨
+         (S[b.height]? = some b ∧ Inv c s' (S.take (b.height + 1)))))) :=
+  processBlock_total H hinj hI hv hgen hAR hne
+
+-- ------------------------------------------------------------------ goal 4: the property
+
+/-- ledger_correct (fixed keystore view): after ANY finite history of node events (extend, reorganise to
+    any branch) interleaved in any order with handler steps, if no notification is pending the wallet
+    holds exactly the books of the node's best chain and the follower's tip is the node's tip -/
+theorem ledger_correct (e : Env) (G : Block) (w0 : World) (evs : List Ev) (H : RunHyp e G w0 evs)
+    (h0 : Inv (e.ctx w0.chain) w0.s w0.chain) (hv0 : w0.v.best = tipMeta w0.chain) (hq0 : w0.queue = []) :
+    (runW e w0 evs).queue = [] →
+      Inv (e.ctx (runW e w0 evs).chain) (runW e w0 evs).s (runW e w0 evs).chain ∧
+        (runW e w0 evs).v.best = tipMeta (runW e w0 evs).chain :=
+  Lemmas.Ledger.ledger_correct e G w0 evs H h0 hv0 hq0
+
+/-- ledger_correct with address issuance: wallets issue addresses during the history; an address is paid
+    by no block the node has had on its best chain before the address was issued (`RunHypI.paid`) -/
+theorem ledger_correct_issue (e : Env) (G : Block) (x0 : WorldI) (evs : List EvI) (H : RunHypI e G x0 evs)
+    (h0 : Inv ({ e with own := x0.own }.ctx x0.w.chain) x0.w.s x0.w.chain)
+    (hv0 : x0.w.v.best = tipMeta x0.w.chain) (hq0 : x0.w.queue = []) :
+    (runI e x0 evs).w.queue = [] →
+      Inv ({ e with own := (runI e x0 evs).own }.ctx (runI e x0 evs).w.chain) (runI e x0 evs).w.s
+          (runI e x0 evs).w.chain ∧
+        (runI e x0 evs).w.v.best = tipMeta (runI e x0 evs).w.chain :=
+  Lemmas.Ledger.ledger_correct_issue e G x0 evs H h0 hv0 hq0
+
+/-- THE PROPERTY, observed: for every ready wallet the reported unspent outputs (tx, index, amount, height,
+    maturity, confirmations, address) are – as a multiset – exactly the outputs the best chain pays to the
+    wallet and has not spent, and WalletBalance (total, spendable, withdrawable staking / binding) is the
+    spec's: a coin counts as spendable / withdrawable exactly when consensus maturity allows it -/
+theorem ledger_observed (e : Env) (G : Block) (w0 : World) (evs : List Ev) (H : RunHyp e G w0 evs)
+    (h0 : Inv (e.ctx w0.chain) w0.s w0.chain) (hv0 : w0.v.best = tipMeta w0.chain) (hq0 : w0.queue = [])
+    (hq : (runW e w0 evs).queue = [])
+    (hwf0 : KeysNodup w0.s.unspent)
+    (hlen : (runW e w0 evs).chain.length < 2^32) (hcb : e.p.cbMaturity < 2^32)
+    (hstk : ∀ x ∈ ledgerOf e.own (runW e w0 evs).chain, ∀ f, x.cls = .stk f → f + 1 < 2^32)
+    (w : Wid) (hw : (readyWallets w0.s e.wallets).contains w = true) (mc : Nat) :
+    ((coinsOf (runW e w0 evs).s w).map (obsM (runW e w0 evs).s.syncedTo)).Perm
+        ((utxosOf e.own (runW e w0 evs).chain w).map (obsS e.p ((runW e w0 evs).chain.length - 1))) ∧
+      walletBalance (runW e w0 evs).s w mc = some (Spec.Chain.balance e.p e.own (runW e w0 evs).chain w mc) :=
+  ledger_observed_wf e G w0 evs H h0 hv0 hq0 hq hwf0 hlen hcb hstk w hw mc
+
+/-- maturity_iff: the wallet's confirmation arithmetic agrees with the consensus rule for every script class -/
+theorem maturity_iff (p : Params) (tip : Nat) (u : UCoin) (h : u.blk.height ≤ tip) (ht : tip < 2^32)
+    (hcb : p.cbMaturity < 2^32) (hstk : ∀ f, u.out.cls = .stk f → f + 1 < 2^32) :
+    confs tip u.blk.height ≥ (creditOf p u).maturity ↔ spendableAt p tip u.toSCoin = true :=
+  Lemmas.Ledger.maturity_iff p tip u h ht hcb hstk
+
+-- ------------------------------------------------------------------ non-vacuity (concrete runs)
+
+/-- every hypothesis of the observation theorems holds on a concrete store computed by the model
+    (genesis + two blocks, an owned coinbase output spent with change) -/
+example : ObsHyp obCtx obS obChain ∧ (readyWallets obS obCtx.wallets).contains "w1" = true := obHyp
+
+/-- a concrete history with a reorganisation satisfies `RunHyp`
+    (extend b1, extend b2, handle, handle, reorganise to a sibling of b2, handle) -/
+example : RunHyp hxEnv hxG hxW0 hxEvs := hxRunHyp
+
+/-- a concrete history with address issuance satisfies `RunHypI` (the address is issued while a notification
+    is pending and paid by a later block) -/
+example : RunHypI ixEnv hxG ix0 ixEvs := ixRunHypI
+
+/-- a fresh store satisfies `FreshStore`, hence `Inv` and `InvFull` for the genesis block -/
+example : FreshStore d2CtxS d2S0 d2G := d2Fresh
+example : InvFull d2CtxS d2S0 (fun k => AMap.get d2S0.addrs k) [d2G] := invFull_fresh d2Fresh
+
+/-- the hypothesis `paid` of `ledger_correct_issue` is necessary: issuing an address AFTER a block paying it
+    has been handled leaves the wallet without that payment -/
+example := @late_issue_breaks
+
+/-- the hypothesis `reorgNonempty` of `RunHyp` is necessary: a bare detach announces nothing -/
+example := @bare_detach_breaks
+
+/-- the D2 witness: the wallet has G–B1–B2, the node G–B1–B2a–B3a where B2a pays the wallet 10 and B3a spends
+    it; ONE notification (B3a) makes the follower roll back B2 and connect B2a and B3a in one database
+    transaction. Every hypothesis of `reorg_reaches` holds (`d2ReorgHyp`, nothing assumed) and the computed
+    store shows no coin and balance 0 (the historical defect showed "10 / 1 utxo") -/
+example : ReorgHyp d2Ctx d2S := d2ReorgHyp
+example (v : Vol) (hv : v.best = tipMeta d2S) :
+    ∃ v', processBlock d2Ctx d2SS v d2B3a = (d2S1, v', true) ∧ Inv d2Ctx d2S1 d2N ∧ v'.best = ⟨3, "B3a"⟩ :=
+  d2Process v hv
+example : (coinsOf d2S1 "W1").length = 0 ∧ walletBalance d2S1 "W1" 1 = some ⟨0, 0, 0, 0⟩ := d2After
+example : d2Rolled = [2] ∧ d2Added = [(2, ["T1"]), (3, ["T2"])] := d2Report
 
 end MW.Props.C01
